@@ -1074,6 +1074,10 @@ func (f *Field) SetValue(columnID uint64, value int64) (changed bool, err error)
 				uvalue = uint64(-baseValue)
 			}
 			bitDepth := bitDepth(uvalue)
+			if bitDepth <= bsig.BitDepth {
+				// Another writer grew it while this one waited for the lock.
+				return nil
+			}
 
 			bsig.BitDepth = bitDepth
 			f.options.BitDepth = bitDepth
@@ -1326,6 +1330,10 @@ func (f *Field) importValue(columnIDs []uint64, values []int64, options *ImportO
 		if err := func() error {
 			f.mu.Lock()
 			defer f.mu.Unlock()
+			if requiredDepth <= bsig.BitDepth {
+				// Another writer grew it while this one waited for the lock.
+				return nil
+			}
 			bsig.BitDepth = requiredDepth
 			f.options.BitDepth = requiredDepth
 			return f.saveMeta()
